@@ -99,13 +99,7 @@ namespace {
         explicit ControlScope(bool o)
           : os(o)
         {
-            while (g_control_busy)
-            {
-                if (os)
-                    std::this_thread::yield();
-                else
-                    pika::this_thread::yield();
-            }
+            while (g_control_busy) poll_pause(os);
             g_control_busy = true;
         }
         ~ControlScope() { g_control_busy = false; }
@@ -267,7 +261,7 @@ namespace {
                         err = e2.value();
                         done = true;
                     });
-                    while (!done) pika::this_thread::yield();
+                    while (!done) poll_pause(false);
                     VH_CHECK(err == (int) pika::error::bad_parameter, "C19.refusal_missing",
                         "a pool suspending itself reported error %d", err);
                     probe("refused.self_suspend");
